@@ -225,8 +225,7 @@ Definition k_absorb_send (pn off i : Z) (a : aresult) : pcd :=
       if gen_send_empty d then
         mkp pn (if gen_send_retry_txerr i (n_nak k) then PSend off (i + 1) (gen_send_rnak_txerr pn) else tagerr gen_send_errno_txerr)
       else if gen_send_is_wtx d then
-        mkp pn (if gen_send_wtx_short d then PDone (Crash IndexErr)       (* pinned: data[1]; fixes/c08-03: PROTOCOL_ERROR *)
-                else PSend off i d)
+        mkp pn (if gen_send_wtx_short d then tagerr gen_send_errno_proto else PSend off i d)
       else if gen_retransmit d pn i (n_nak k) then
         mkp pn (PSend off (i + 1) (gen_retransmit_data (gen_pfb (gen_more cmd off (miu k)) pn) cmd off (miu k)))
       else k_after_send pn off d
@@ -241,7 +240,7 @@ Definition k_absorb_recv (pn i : Z) (rsp : bytes) (a : aresult) : pcd :=
       if gen_recv_empty d then
         mkp pn (if gen_recv_retry_txerr i (n_ack k) then PRecv (i + 1) (gen_recv_rack_txerr pn) rsp else tagerr gen_recv_errno_txerr)
       else if gen_recv_is_wtx d then
-        mkp pn (if gen_recv_wtx_short d then PDone (Crash IndexErr) else PRecv i d rsp)
+        mkp pn (if gen_recv_wtx_short d then tagerr gen_recv_errno_proto else PRecv i d rsp)
       else if gen_recv_bad_bn d pn then mkp pn (tagerr gen_recv_errno_proto)
       else let pn' := gen_toggle_recv pn in let r := gen_response_more rsp d in
            mkp pn' (if gen_chaining d then PRecv 1 (gen_rack pn') r else PDone (Ok r))
@@ -267,7 +266,7 @@ Proof.
   rewrite T9, T1, T3, len_cons_eqb0, idx0, Hf1, Hf3.
   destruct (is_wtx b0).
   - destruct inf as [|b1 inf]; [reflexivity|].
-    destruct (bridge_wtx_short b0 b1 inf) as (W1 & _). rewrite W1. reflexivity.
+    destruct (bridge_wtx_short b0 b1 inf) as (W1 & _). rewrite W1. unfold gen_send_wtx_short in W1. rewrite W1. reflexivity.
   - destruct (is_rack_other pn b0 && (i <=? n_nak k + 1)); [reflexivity|].
     unfold after_wtx, k_after_send, recv_check. rewrite T4, T6, T7, T8.
     destruct (negb (Z.land b0 1 =? pn)); [reflexivity|].
@@ -287,7 +286,7 @@ Proof.
   rewrite T10, T2, T5, T8, len_cons_eqb0, idx0, Hf2. cbn [andb].
   destruct (is_wtx b0).
   - destruct inf as [|b1 inf]; [reflexivity|].
-    destruct (bridge_wtx_short b0 b1 inf) as (_ & W2 & _). rewrite W2. reflexivity.
+    destruct (bridge_wtx_short b0 b1 inf) as (_ & W2 & _). rewrite W2. unfold gen_recv_wtx_short in W2. rewrite W2. reflexivity.
   - destruct (negb (Z.land b0 1 =? pn)); [reflexivity|].
     unfold recv_check. destruct (negb (Z.land b0 16 =? 0)); reflexivity.
 Qed.
